@@ -23,6 +23,7 @@ func (P) Rule() string {
 type exec struct {
 	last *csim.SimResult
 	lp   csim.SimParams
+	next map[int]int // node -> index of the next expected `ns` step (a gap makes the rest of that node's steps `skip`)
 }
 
 func (P) NewExec() hx.Executor { return &exec{} }
@@ -33,7 +34,7 @@ func parseSim(toks []string) csim.SimParams {
 		n, _ := strconv.Atoi(v)
 		return n
 	}
-	p := csim.SimParams{N: geti("n"), Steps: geti("steps"), Heights: geti("heights")}
+	p := csim.SimParams{N: geti("n"), Steps: geti("steps"), Heights: geti("heights"), Trace: true}
 	s, _ := hx.Arg(toks, "seed")
 	p.Seed, _ = strconv.ParseInt(s, 10, 64)
 	p.Prof, _ = hx.Arg(toks, "prof")
@@ -54,6 +55,7 @@ func (e *exec) Exec(op string) string {
 	switch toks[0] {
 	case "case":
 		e.last = nil
+		e.next = map[int]int{}
 		return "ok"
 	case "sim":
 		e.lp = parseSim(toks)
@@ -66,8 +68,37 @@ func (e *exec) Exec(op string) string {
 		return Diag(e.last)
 	case "hist":
 		return CheckHist(toks)
+	case "ns":
+		return e.nodeStep(op, toks)
 	}
 	return "bad-op"
+}
+
+// nodeStep answers `ns node=<i> k=<n> ev=<event…>`: the state line and outputs the REAL node i had after its n-th handled
+// input in the simulation just re-run by `sim` (recorded by csim's trace).  The op's event description (taken from the
+// generator's dry run) must be the one recorded now: the simulation is deterministic.
+func (e *exec) nodeStep(op string, toks []string) string {
+	if e.last == nil {
+		return "nosim"
+	}
+	node := int(hx.ArgI(toks, "node", -1))
+	k := int(hx.ArgI(toks, "k", -1))
+	if e.next == nil {
+		e.next = map[int]int{}
+	}
+	if k != e.next[node] {
+		return "skip"
+	}
+	tr := e.last.Net.Trace[node]
+	if k < 0 || k >= len(tr) {
+		return "no-step"
+	}
+	i := strings.Index(op, " ev=")
+	if i < 0 || op[i+4:] != tr[k].Ev {
+		return "ev-mismatch now=" + strings.ReplaceAll(tr[k].Ev, " ", "_")
+	}
+	e.next[node] = k + 1
+	return tr[k].Ans
 }
 
 // Diag is the health line of a simulation; the model's answer is the constant all-zero line (that IS the claim:
@@ -294,11 +325,16 @@ func simLine(n int, powers []int64, byz []bool, seed int64, steps, heights int, 
 }
 
 func (P) Generate(g *hx.Gen) {
-	profs := []string{"sync", "async", "async", "lossy", "byz", "byz", "byz"}
+	profs := []string{"sync", "async", "async", "lossy", "byz", "byz", "byz", "late", "late"}
 	total := g.Pick(60, 1500)
+	scripted := g.Pick(4, 40)
 	for k := 0; k < total; k++ {
 		prof := profs[g.Rng.Intn(len(profs))]
 		n, powers, byz := genCfg(g, prof == "byz")
+		if k < scripted {
+			// directed schedule (csim/script.go): a polka of an old round completes at a node locked in a later round
+			prof, n, powers, byz = "lockscript", 4, []int64{10, 10, 10, 10}, []bool{false, false, false, false}
+		}
 		seed := g.Rng.Int63n(1 << 40)
 		steps := g.Pick(1500, 4000)
 		heights := 2 + g.Rng.Intn(2)
@@ -308,6 +344,26 @@ func (P) Generate(g *hx.Gen) {
 		r := csim.Run(p)
 		ops := []string{hx.CaseOp(), line, "diag"}
 		ops = append(ops, r.HistLines(p)...)
+		// step-level tie: every handled input of every correct node, compared with Model.Node.step
+		maxPerNode := g.Pick(400, 2000)
+		ops = append(ops, r.Net.TraceLines(maxPerNode)...)
+		for _, tr := range r.Net.Trace {
+			for k, te := range tr {
+				if k >= maxPerNode {
+					break
+				}
+				g.Count("ns-ev:" + te.Kind())
+				if k > 0 {
+					g.Count("ns-trans:" + csim.Transition(tr[k-1], te))
+					if csim.OldPrevoteWhileLocked(tr[k-1], te) {
+						g.Count("ns-prevote-of-round<=lockedRound-while-locked-in-later-round")
+					}
+				}
+				if strings.HasPrefix(te.Ans, "panic") {
+					g.Count("ns-panic")
+				}
+			}
+		}
 		g.Count("prof:" + prof)
 		g.Count(fmt.Sprintf("n:%d", n))
 		g.Count(fmt.Sprintf("heights-committed:%d", r.MinHeight))
